@@ -37,9 +37,9 @@ PROP = dict(
                 "TestVerifC13ReproResolvedCheckpoint", "TestVerifC13ReproContestOwnSweepPanic"], 1, shards=1, v=True),
         ],
         thorough=[
-            job("contractcourt", "^TestVerifC13LogModel$", ["TestVerifC13LogModel"], 3000, shards=8,
+            job("contractcourt", "^TestVerifC13LogModel$", ["TestVerifC13LogModel"], 4000, shards=12,
                 env=dict(VERIF_C13_STEPS=80), timeout=900),
-            job("contractcourt", "^TestVerifC13Crash$", ["TestVerifC13Crash"], 250, shards=8,
+            job("contractcourt", "^TestVerifC13Crash$", ["TestVerifC13Crash"], 350, shards=12,
                 env=dict(VERIF_C13_PAIRS=12), timeout=900, flaky_is_violation=False),
             job("contractcourt", "^TestVerifC13Repro", ["TestVerifC13ReproRestartInContractClosed",
                 "TestVerifC13ReproResolvedCheckpoint", "TestVerifC13ReproContestOwnSweepPanic"], 1, shards=1, v=True),
